@@ -16,7 +16,9 @@ Inductive pval :=
 | VVariadic (m : alist (bool * list Z))  (* dict: variadic name -> (was broadcastable, shape) *)
 | VPair (a b : pval)                     (* a 2-tuple *)
 | VCls (iv : option nat) (dl : list dim) (* the annotation class: .index_variadic, .dims *)
-| VObj (sh : list Z).                    (* the array: .shape *)
+| VObj (sh : list Z)                     (* the array: .shape *)
+| VStrs (l : list string)                (* a list of strings *)
+| VFinder (modules : list string).       (* the import hook's finder: .modules *)
 
 Inductive pexpr :=
 | PVar (x : string)
@@ -33,7 +35,9 @@ Inductive pexpr :=
 | PLt (a b : pexpr) | PSub (a b : pexpr) | PNeg (a : pexpr)
 | PSlice (e : pexpr) (lo hi : option pexpr)     (* e[lo:hi] *)
 | PIndex (e i : pexpr)                          (* e[i] on a list of dims *)
-| PTuple2 (a b : pexpr).
+| PTuple2 (a b : pexpr)
+| POr (a b : pexpr)
+| PStartsWith (a b : pexpr).                    (* a.startswith(b) *)
 
 Inductive pstmt :=
 | SPass
@@ -47,13 +51,21 @@ Inductive pstmt :=
 | SEvalSym (x : string) (src : pexpr) (argd sd : string)                (* the two-stage eval of a symbolic axis; NameError -> AnnotationError *)
 | SCallAssign (x f : string) (args : list pexpr)                        (* x = f(args): f is another translated function *)
 | STryKey2 (x1 x2 d : string) (k : pexpr) (onmiss orelse : list pstmt)  (* try: x1, x2 = d[k] / except KeyError: onmiss / else: orelse *)
-| STryBroadcast (x : string) (a b : pexpr) (onfail : list pstmt).       (* try: x = np.broadcast_shapes(a, b) / except ValueError: onfail *)
+| STryBroadcast (x : string) (a b : pexpr) (onfail : list pstmt)        (* try: x = np.broadcast_shapes(a, b) / except ValueError: onfail *)
+| SForIn (x : string) (a : pexpr) (body : list pstmt).                  (* for x in a: body   (a list of strings) *)
 
 Definition penv := string -> option pval.
 Definition upd (env : penv) (x : string) (v : pval) : penv := fun y => if String.eqb x y then Some v else env y.
 
 Inductive pres := RVal (v : pval) | RExn (e : exn).
 Inductive outcome := ONormal (env : penv) | OReturn (v : pval) (env : penv) | ORaise (e : exn) (env : penv).
+
+Fixpoint str_prefix (p s : string) : bool :=
+  match p, s with
+  | EmptyString, _ => true
+  | String a p', String b s' => Ascii.eqb a b && str_prefix p' s'
+  | _, EmptyString => false
+  end.
 
 Definition norm_idx (n x : Z) : Z := if (x <? 0)%Z then Z.max (n + x) 0 else Z.min x n.
 (* Python's l[lo:hi] (step 1) *)
@@ -109,6 +121,7 @@ Fixpoint evale (env : penv) (e : pexpr) : pres :=
                      if String.eqb f "index_variadic" then RVal (match iv with None => VNone | Some i => VZ (Z.of_nat i) end)
                      else if String.eqb f "dims" then RVal (VDims dl) else RExn OtherExc
                  | RVal (VObj sh) => if String.eqb f "shape" then RVal (VZs sh) else RExn OtherExc
+                 | RVal (VFinder ms) => if String.eqb f "modules" then RVal (VStrs ms) else RExn OtherExc
                  | RVal _ => RExn OtherExc
                  | r => r
                  end
@@ -184,6 +197,17 @@ Fixpoint evale (env : penv) (e : pexpr) : pres :=
                    | RVal x, RVal y => RVal (VPair x y)
                    | RExn e, _ => RExn e | _, RExn e => RExn e
                    end
+  | POr a b => match evale env a with
+               | RVal (VB true) => RVal (VB true)
+               | RVal (VB false) => evale env b
+               | RVal _ => RExn OtherExc
+               | r => r
+               end
+  | PStartsWith a b => match evale env a, evale env b with
+                       | RVal (VS x), RVal (VS y) => RVal (VB (str_prefix y x))
+                       | RVal _, RVal _ => RExn OtherExc
+                       | RExn e, _ => RExn e | _, RExn e => RExn e
+                       end
   end.
 
 Fixpoint evals (env : penv) (l : list pexpr) : list pval + exn :=
@@ -215,6 +239,12 @@ Fixpoint for_zip (step : penv -> outcome) (x y : string) (l1 : list dim) (l2 : l
       | o => o
       end
   | _, _ => ONormal env                           (* zip stops at the shorter one *)
+  end.
+
+Fixpoint for_in (step : penv -> outcome) (x : string) (l : list string) (env : penv) {struct l} : outcome :=
+  match l with
+  | v :: r => match step (upd env x (VS v)) with ONormal env1 => for_in step x r env1 | o => o end
+  | [] => ONormal env
   end.
 
 Fixpoint exec (s : pstmt) (env : penv) {struct s} : outcome :=
@@ -301,6 +331,12 @@ Fixpoint exec (s : pstmt) (env : penv) {struct s} : outcome :=
           end
       | _, RExn ex => ORaise ex env
       | _, _ => ORaise OtherExc env
+      end
+  | SForIn x a body =>
+      match evale env a with
+      | RVal (VStrs l) => for_in (fun env' => exec_list body env') x l env
+      | RVal _ => ORaise OtherExc env
+      | RExn ex => ORaise ex env
       end
   | STryBroadcast x a b onfail =>
       match evale env a, evale env b with
